@@ -552,6 +552,7 @@ pub fn run(ctx: &Ctx) -> Coverage {
         let tier = ctx.tier();
         let n = tcp_cases(tier).len();
         explore::run_sharded(ctx, n, "c18b", |i| run_item(tier, i));
+        super::c18c::run(ctx);
         unreachable!();
     }
     let mut cov = Coverage::aggregate();
@@ -560,10 +561,14 @@ pub fn run(ctx: &Ctx) -> Coverage {
     let n = tcp_cases(tier).len();
     let results = explore::run_sharded(ctx, n, "c18b", |i| run_item(tier, i));
     cov.absorb("b-tcp-relay", super::c01::summarize(ctx, &results, "TCP sessions through an unmodified worker: plain relay in both directions (sizes straddling buffer boundaries, with and without client half-close), PROXY-protocol send mode, and expect / relay modes with incoming v2 headers {TCP4, TCP6, LOCAL, TCP4+TLV, bad signature, bad version} either separate from or coalesced with the first payload bytes and cut at every byte position; each with every schedule of at most d deviations (short / would-block reads and writes on both sockets, readiness order). Oracle: backend stream = [exactly one well-formed header with the true or relayed addresses] + exactly the client payload; client stream = exactly the backend payload; end-of-stream forwarded after all bytes; malformed header: closed, nothing forwarded; nothing completes only after a timer"));
+    cov.absorb("c-websocket", super::c18c::run(ctx));
     cov
 }
 
 pub fn replay(ctx: &Ctx, case: &Value) -> Coverage {
+    if case["part"] == "c" {
+        return super::c18c::replay(ctx, case);
+    }
     if case["part"] == "b" {
         let c: TcpCase = serde_json::from_value(case["case"].clone()).unwrap_or_else(|e| crate::common::machinery_error(&format!("bad replay case: {e}")));
         let choices: Vec<u32> = serde_json::from_value(case["choices"].clone()).unwrap_or_default();
